@@ -383,3 +383,42 @@ pub fn overheads(proto: &Proto) -> Vec<usize> {
     }
     out
 }
+
+/// Field map of handshake message `k` carrying a payload of `plen` bytes (Appendix B of the
+/// design): byte ranges of `e`, `s` (+tag) and the payload (+tag) and whether each is encrypted.
+/// Depends only on the pattern (HasKey evolves with the tokens).
+pub fn field_map(proto: &Proto, k: usize, plen: usize) -> Vec<Field> {
+    let is_psk = proto.pattern.has_psk();
+    let publen = proto.dh.publen();
+    let mut has_key = false;
+    let mut fields = vec![];
+    for (j, m) in proto.pattern.msgs.iter().enumerate() {
+        let mut off = 0;
+        for t in m {
+            match t {
+                Tok::E => {
+                    if j == k {
+                        fields.push(Field { kind: FieldKind::E, start: off, len: publen, encrypted: false });
+                    }
+                    off += publen;
+                    if is_psk {
+                        has_key = true;
+                    }
+                },
+                Tok::S => {
+                    let l = publen + if has_key { 16 } else { 0 };
+                    if j == k {
+                        fields.push(Field { kind: FieldKind::S, start: off, len: l, encrypted: has_key });
+                    }
+                    off += l;
+                },
+                _ => has_key = true,
+            }
+        }
+        if j == k {
+            fields.push(Field { kind: FieldKind::Payload, start: off, len: plen + if has_key { 16 } else { 0 }, encrypted: has_key });
+            break;
+        }
+    }
+    fields
+}
